@@ -481,3 +481,14 @@ func ParseMessageBegin(b []byte) Envelope {
 	seq := int32(uint32(b[p])<<24 | uint32(b[p+1])<<16 | uint32(b[p+2])<<8 | uint32(b[p+3]))
 	return Envelope{Kind: EnvOK, Name: b[8:p], Type: int32(w & 0xffff), Seq: seq, Len: p + 4}
 }
+
+// Exported big-endian primitives for record-level reference encodings.
+func (e *Encoder) U8(v byte)      { e.u8(v) }
+func (e *Encoder) U16(v uint16)   { e.u16(v) }
+func (e *Encoder) U32(v uint32)   { e.u32(v) }
+func (e *Encoder) U64(v uint64)   { e.u64(v) }
+func (e *Encoder) Bytes(b []byte) { e.Buf = append(e.Buf, b...) }
+func (e *Encoder) LenBytes(b []byte) {
+	e.u32(uint32(len(b)))
+	e.Buf = append(e.Buf, b...)
+}
